@@ -393,6 +393,41 @@ func (L *Loader) resolveType(pkg *types.Package, s string) (types.Type, error) {
 	return nil, fmt.Errorf("unknown type %q", s)
 }
 
+// isLocalName: name is declared as a local variable somewhere in fn's source.
+func (L *Loader) isLocalName(fn *ssa.Function, name string) bool {
+	syn := fn.Syntax()
+	if syn == nil {
+		return false
+	}
+	found := false
+	ast.Inspect(syn, func(n ast.Node) bool {
+		switch x := n.(type) {
+		case *ast.AssignStmt:
+			if x.Tok == token.DEFINE {
+				for _, l := range x.Lhs {
+					if id, ok := l.(*ast.Ident); ok && id.Name == name {
+						found = true
+					}
+				}
+			}
+		case *ast.ValueSpec:
+			for _, id := range x.Names {
+				if id.Name == name {
+					found = true
+				}
+			}
+		case *ast.RangeStmt:
+			for _, l := range []ast.Expr{x.Key, x.Value} {
+				if id, ok := l.(*ast.Ident); ok && id.Name == name {
+					found = true
+				}
+			}
+		}
+		return !found
+	})
+	return found
+}
+
 // assignedName: expr is the right-hand side of an assignment to a single plain identifier.
 func (L *Loader) assignedName(fn *ssa.Function, expr ast.Expr) (string, bool) {
 	m, ok := L.assignRHS[fn]
